@@ -288,6 +288,21 @@ def _mk_sub(ty):
 
 
 def _mk_enum(ty):
+    if ty.x.get('missing_hook'):
+        # an Enum with a _missing_ hook: calling the class resolves more values than the members' own values
+        def _missing_(cls, value):
+            for m in cls:
+                if str(m.value).lower() == str(value).lower() or m.name.lower() == str(value).lower():
+                    return m
+            return None
+        ns = enum.EnumMeta.__prepare__(f"E{next(_serial)}", (enum.Enum,))
+        for n, v in ty.x['members']:
+            try:
+                ns[n] = v
+            except TypeError:
+                pass
+        ns['_missing_'] = classmethod(_missing_)
+        return enum.EnumMeta(f"E{next(_serial)}", (enum.Enum,), ns)
     return enum.Enum(f"E{next(_serial)}", [(n, v) for (n, v) in ty.x['members']])
 
 
@@ -428,7 +443,8 @@ def build(ty: Ty, rng=None, lit_ok=True):
     if k == 'tagged':
         from pane.annotations import Tagged
         ms = tuple(sub(c) for c in ty.a)
-        return t.Annotated[t.Union[ms], Tagged(ty.x['tag'], ty.x['external'])]
+        ext = ty.x['external']
+        return t.Annotated[t.Union[ms], Tagged(ty.x['tag'], list(ext) if ty.x.get('ext_as_list') else ext)]
     if k == 'ndarray':
         import numpy
         dt = ty.x.get('dtype')
@@ -524,6 +540,10 @@ def conforms(ty: Ty, obj, depth=0) -> bool:
         return True
     k = ty.k
     try:
+        if k == 'lit':
+            # Literal[0, False] == Literal[False, 0] for typing's alias cache, but the order shows in messages and results
+            args = t.get_args(obj)
+            return len(args) == len(ty.x['vals']) and all(type(a) is type(b) and a == b for a, b in zip(args, ty.x['vals']))
         if k == 'union':
             if t.get_origin(obj) is not t.Union:
                 return False
@@ -531,8 +551,11 @@ def conforms(ty: Ty, obj, depth=0) -> bool:
             if len(args) != len(ty.a):
                 return False
             for m, a in zip(ty.a, args):
-                if m.k in ('int', 'float', 'complex', 'bool', 'str', 'bytes', 'bytearray', 'none', 'decimal', 'fraction', 'date', 'time',
-                           'datetime', 'any', 'path', 'sub', 'enum', 'dc', 'cc'):
+                if m.k == 'lit':
+                    if not conforms(m, a, depth + 1):
+                        return False
+                elif m.k in ('int', 'float', 'complex', 'bool', 'str', 'bytes', 'bytearray', 'none', 'decimal', 'fraction', 'date', 'time',
+                             'datetime', 'any', 'path', 'sub', 'enum', 'dc', 'cc'):
                     if build(m) is not a and build(m) != a:
                         return False
                 elif not conforms(m, a, depth + 1):
